@@ -305,9 +305,10 @@ structure Codec where
   /-- what the decoder outputs for compressed stream `C` whose source ends with `o` -/
   decode : Bytes → Term → Bytes × Term
 
-/-- `Ext.codec.chunk_independent`, as an explicit hypothesis: the decoder's output does not depend
-on how its input arrives nor on the caller's buffer sizes. Assumed for flate2 / bzip2 / zstd,
-*proved* for Stored (`storedCodec`). -/
+/-- The decoder's output does not depend on how its input arrives nor on the caller's buffer sizes -
+on EVERY input stream, damaged ones included.  *Proved* for Stored (`storedCodec`) and for per-byte
+transforms; **false for flate2 / bzip2 / zstd** (review finding F3, see `Codec.ChunkIndependentOn`
+below for what they can be asked to satisfy and `pickyCodec` for a model instance of the failure). -/
 structure Codec.ChunkIndependent (c : Codec) : Prop where
   denotes : ∀ {σ : Type} (inner : Src σ) (s : σ) (C : Bytes) (o : Term),
     Denotes inner s C o → Denotes (c.layer inner) (c.init s) (c.decode C o).1 (c.decode C o).2
@@ -319,8 +320,9 @@ shape, so decoders never see a zero-length request. -/
 def guardZero {σ} (inner : Src σ) : Src σ where
   rd s n := if n = 0 then (.ok [], s) else inner.rd s n
 
-/-- The codec hypothesis restricted to non-empty requests - all that the entry pipelines need since
-`Crc32Reader` answers zero-length reads itself. -/
+/-- The same for non-empty requests only (`Crc32Reader` answers zero-length reads itself).  Still over
+every stream, hence still false for the real decoders; no property theorem takes it as a hypothesis any
+more. -/
 structure Codec.ChunkIndependentNZ (c : Codec) : Prop where
   denotes : ∀ {σ : Type} (inner : Src σ) (s : σ) (C : Bytes) (o : Term),
     Denotes inner s C o →
@@ -341,6 +343,52 @@ def storedCodec : Codec where
   layer := fun inner => inner
   init := fun s => s
   decode := fun C o => (C, o)
+
+/-! ## Codec hypotheses that real decoders can meet (review finding F3)
+
+`Codec.ChunkIndependent(NZ)` above quantify over EVERY compressed stream `C`, damaged ones included, and
+are FALSE for the real decoders: on damaged input flate2 / bzip2 / zstd notice the damage at a point
+that depends on the buffer sizes (zstd 0.11, frame `28 b5 2f fd 20 02 01 00 00` - declared content
+size 2, no content -: `(0 bytes, eof)` with 1-byte buffers, `(0 bytes, Err)` with a 64 KiB buffer;
+damaged deflate streams hand out different numbers of bytes before `InvalidInput`).  They remain true
+for Stored and for per-byte transforms, nothing else.  What the external decoders can be asked to
+satisfy is chunk independence ON ONE stream - and the streams to ask it for are the INTACT ones. -/
+
+/-- The decoder's result on the compressed stream `C` (ending with `o`) does not depend on how `C`
+arrives nor on the caller's (non-empty) buffer sizes, and is `c.decode C o`. -/
+def Codec.ChunkIndependentOn (c : Codec) (C : Bytes) (o : Term) : Prop :=
+  ∀ {σ : Type} (inner : Src σ) (s : σ), Denotes inner s C o →
+    Denotes (guardZero (c.layer inner)) (c.init s) (c.decode C o).1 (c.decode C o).2
+
+/-- **The hypothesis on flate2 / bzip2 / zstd** (`Ext.codec.intact`): what an encoder produced, followed
+by a clean end of input (the `Take` at the compressed size), is decoded to the payload and a clean
+end, under every chunking.  Nothing is asked about streams outside the encoder's range. -/
+structure Codec.IntactOK (c : Codec) (encode : Bytes → Bytes) : Prop where
+  roundtrip : ∀ p, c.decode (encode p) .eof = (p, .eof)
+  chunk : ∀ p, c.ChunkIndependentOn (encode p) .eof
+
+/-- Toy codec 1 (every byte xor `0x55`): a per-byte transform, chunk independent on every stream. -/
+def xorCodec : Codec where
+  St := fun σ => σ × Unit
+  layer := fun inner => mapLayer (· ^^^ 0x55) inner
+  init := fun s => (s, ())
+  decode := fun C o => (mapBytes (fun (_ : Unit) b => (b ^^^ 0x55, ())) () C, o)
+
+/-- Toy codec 2, the model analogue of what the real decoders do with damaged input: the format is
+"bytes below `0x80`"; a chunk obtained from the reader below that contains a byte outside the format
+is rejected AS A WHOLE, so how many good bytes come out before the error depends on the chunking. -/
+def pickyLayer {σ} (inner : Src σ) : Src σ where
+  rd s n :=
+    match inner.rd s n with
+    | (.ok bs, s') => if bs.all (· < 0x80) then (.ok bs, s') else (.err .invalidData, s')
+    | r => r
+
+def pickyCodec : Codec where
+  St := fun σ => σ
+  layer := fun inner => pickyLayer inner
+  init := fun s => s
+  decode := fun C o =>
+    if C.all (· < 0x80) then (C, o) else (C.takeWhile (· < 0x80), .err .invalidData)
 
 /-! ## The PKWARE stream cipher as computed by the crate (zipcrypto.rs:17-60)
 
